@@ -188,7 +188,8 @@ package loadbalancer
 //@ pred lcOK(s *LeastConnectionsStrategy) := forall i int :: {s.backends[i]} 0 <= i && i < len(s.backends) ==> s.backends[i] != nil
 //@ pred iphOK(s *IPHashStrategy) := len(s.backends) < 2147483648 && (forall i int :: {s.backends[i]} 0 <= i && i < len(s.backends) ==> s.backends[i] != nil)
 //@ pred iphcOK(s *IPHashConsistentStrategy) := len(s.backends) < 2147483648 && (forall i int :: {s.backends[i]} 0 <= i && i < len(s.backends) ==> s.backends[i] != nil)
-//@ pred wrrOK(s *WeightedRoundRobinStrategy) := forall i int :: {s.backends[i]} 0 <= i && i < len(s.backends) ==> s.backends[i] != nil && s.backends[i].backend != nil
+//@ pred wrrOK(s *WeightedRoundRobinStrategy) := (forall i int :: {s.backends[i]} 0 <= i && i < len(s.backends) ==> s.backends[i] != nil && s.backends[i].backend != nil)
+//@      && (forall i int :: forall j int :: {s.backends[i], s.backends[j]} 0 <= i && i < j && j < len(s.backends) ==> s.backends[i] != s.backends[j])
 //@ pred poolOK(lb *LoadBalancer) :=
 //@        (dyntype(lb.strategy, *RoundRobinStrategy) ==> rrNonNil(asptr(lb.strategy, *RoundRobinStrategy))) &&
 //@        (dyntype(lb.strategy, *LeastConnectionsStrategy) ==> lcOK(asptr(lb.strategy, *LeastConnectionsStrategy)))
@@ -196,10 +197,22 @@ package loadbalancer
 //@     && (dyntype(lb.strategy, *IPHashStrategy) ==> iphOK(asptr(lb.strategy, *IPHashStrategy)))
 //@     && (dyntype(lb.strategy, *IPHashConsistentStrategy) ==> iphcOK(asptr(lb.strategy, *IPHashConsistentStrategy)))
 
+// ---- client address attribution of the hash strategies (C06): the string that is hashed is a function of
+// exactly three inputs: X-Forwarded-For, X-Real-IP and the peer address - not of path, port, other headers.
+//@ ghost var hashedKey String
+//@ pred firstOf(s string) string := contains(s, ",") ? split_head(s, ",") : s
+//@ pred clientKey(r *http.Request) string :=
+//@      header_get(ptr(r.Header), "X-Forwarded-For") != "" ? firstOf(header_get(ptr(r.Header), "X-Forwarded-For"))
+//@    : (header_get(ptr(r.Header), "X-Real-IP") != "" ? firstOf(header_get(ptr(r.Header), "X-Real-IP"))
+//@    : firstOf(split_ok(r.RemoteAddr) ? split_host(r.RemoteAddr) : r.RemoteAddr))
+
 // ---- ip hash
 //@ func (*IPHashStrategy).NextBackend
 //@   props C02 C06
 //@   requires unlocked(iph.mutex) && r != nil && iphOK(iph)
+//@   ghost before Write :: hashedKey := ipStr
+//@   ensures hashes_client_key_only: result != nil ==> hashedKey == clientKey(r)
+//@   modifies hashedKey
 //@   ensures member: result != nil ==> inIPH(iph, result) && result.IsHealthy
 //@   ensures nil_only_if_none_flagged: result == nil ==> forall i int :: {iph.backends[i]} 0 <= i && i < len(iph.backends) ==> !iph.backends[i].IsHealthy
 //@ loop (*IPHashStrategy).NextBackend #0
@@ -217,6 +230,9 @@ package loadbalancer
 //@ func (*IPHashConsistentStrategy).NextBackend
 //@   props C02 C06
 //@   requires unlocked(iph.mutex) && r != nil && iphcOK(iph)
+//@   ghost before Write :: hashedKey := ipStr
+//@   ensures hashes_client_key_only: result != nil ==> hashedKey == clientKey(r)
+//@   modifies hashedKey
 //@   ensures member: result != nil ==> inIPHC(iph, result) && result.IsHealthy
 //@   ensures nil_only_if_none_flagged: result == nil ==> forall i int :: {iph.backends[i]} 0 <= i && i < len(iph.backends) ==> !iph.backends[i].IsHealthy
 //@ loop (*IPHashConsistentStrategy).NextBackend #0
@@ -334,12 +350,18 @@ package loadbalancer
 //@   requires unlocked(wrr.mutex) && wrrOK(wrr)
 //@   ensures member: result != nil ==> inWRR(wrr, result) && result.IsHealthy
 //@   ensures nil_only_if_none_flagged: result == nil ==> forall i int :: {wrr.backends[i]} 0 <= i && i < len(wrr.backends) ==> !wrr.backends[i].backend.IsHealthy
+//@   ensures ejected_earn_no_credit: forall i int :: {wrr.backends[i]} 0 <= i && i < len(wrr.backends) && !wrr.backends[i].backend.IsHealthy
+//@             ==> wrr.backends[i].currentWeight == old(wrr.backends[i].currentWeight)
+//@   ensures passed_over_earn_their_weight: forall i int :: {wrr.backends[i]} 0 <= i && i < len(wrr.backends) && wrr.backends[i].backend.IsHealthy && wrr.backends[i].backend != result
+//@             ==> wrr.backends[i].currentWeight == wrap64(old(wrr.backends[i].currentWeight) + wrr.backends[i].backend.Weight)
 //@   modifies weightedBackend.currentWeight
 //@ loop (*WeightedRoundRobinStrategy).NextBackend #0
 //@   props C02 C05
 //@   invariant idx: -1 <= rangeindex && rangeindex < len(wrr.backends)
 //@   invariant best_ok: best != nil ==> best.backend != nil && best.backend.IsHealthy && (exists k int :: {wrr.backends[k]} 0 <= k && k <= rangeindex && wrr.backends[k] == best)
 //@   invariant none_yet: best == nil ==> forall k int :: {wrr.backends[k]} 0 <= k && k <= rangeindex ==> !wrr.backends[k].backend.IsHealthy
+//@   invariant credit: forall k int :: {wrr.backends[k]} 0 <= k && k < len(wrr.backends) ==> wrr.backends[k].currentWeight ==
+//@             (k <= rangeindex && wrr.backends[k].backend.IsHealthy ? wrap64(old(wrr.backends[k].currentWeight) + wrr.backends[k].backend.Weight) : old(wrr.backends[k].currentWeight))
 //@   decreases len(wrr.backends) - rangeindex
 
 // ---- request path
